@@ -71,6 +71,20 @@ BundleCell(op) ==
   /\ \E i \in DOMAIN AuthOps[op].slots : AuthOps[op].slots[i][2] \in {"bank", "bank2", "bank_g"}
   /\ Emit(Action(op, [subst |-> BundleSeq(op, BundleSlots(op))], "bundle", "-"), "err")
 
+\* a coherent foreign pair: another group together with that group's own staked settings (each alone is rejected by the
+\* has_one cross-check; the pair isolates the "bank belongs to this group" binding of the remaining slots)
+GBundleName(kind) == CASE kind = "group" -> "G2" [] kind = "ssettings" -> "G2.staked" [] OTHER -> ""
+GBundleSlots(op) == {i \in DOMAIN AuthOps[op].slots : GBundleName(AuthOps[op].slots[i][2]) # ""}
+RECURSIVE GBundleSeq(_, _)
+GBundleSeq(op, S) ==
+  IF S = {} THEN <<>>
+  ELSE LET i == CHOOSE x \in S : \A y \in S : x <= y IN
+       <<<<i - 1, GBundleName(AuthOps[op].slots[i][2])>>>> \o GBundleSeq(op, S \ {i})
+GBundleCell(op) ==
+  /\ \E i \in DOMAIN AuthOps[op].slots : AuthOps[op].slots[i][2] = "ssettings"
+  /\ \E i \in DOMAIN AuthOps[op].slots : AuthOps[op].slots[i][2] = "group"
+  /\ Emit(Action(op, [subst |-> GBundleSeq(op, GBundleSlots(op))], "gbundle", "-"), "err")
+
 Freeze ==
   /\ mode = "base"
   /\ mode' = "frozen"
@@ -87,6 +101,7 @@ Next ==
           \/ \E id \in {AuthIdentities[i] : i \in DOMAIN AuthIdentities} : SignerCell(op, id)
           \/ NoSignCell(op)
           \/ BundleCell(op)
+          \/ GBundleCell(op)
           \/ \E i \in DOMAIN AuthOps[op].slots :
                \E j \in DOMAIN AuthCand[AuthOps[op].slots[i][2]] : SubstCell(op, i, AuthCand[AuthOps[op].slots[i][2]][j])
 Spec == Init /\ [][Next]_vars
